@@ -169,19 +169,18 @@ func (r *Router) handleHTTPRequest(ctx *Context) {
 		// append main handler to last. (copy: never write into the route's own slice)
 		handlers = combineHandlers(route.handlers, HandlersChain{route.handler})
 	} else if len(allowed) > 0 { // method not allowed
-		if len(r.noAllowed) == 0 {
-			r.noAllowed = HandlersChain{internal405Handler}
+		handlers = r.noAllowed
+		if len(handlers) == 0 {
+			handlers = HandlersChain{internal405Handler}
 		}
 
 		// add allowed methods to context
 		ctx.Set(CTXAllowedMethods, allowed)
-		handlers = r.noAllowed
 	} else { // not found route
-		if len(r.noRoute) == 0 {
-			r.noRoute = HandlersChain{internal404Handler}
-		}
-
 		handlers = r.noRoute
+		if len(handlers) == 0 {
+			handlers = HandlersChain{internal404Handler}
+		}
 	}
 
 	// has global middleware handlers. (copy: never write into the router's own slice)
